@@ -23,7 +23,7 @@ def do_replay(path):
 
 
 KNOWN_PRINTED = set()
-ENGINE_B_PROPS = {"C02", "C03", "C09", "C20", "C01", "C06", "C07", "C11", "C12"}
+ENGINE_B_PROPS = {"C08", "C02", "C03", "C09", "C20", "C01", "C06", "C07", "C11", "C12"}
 
 
 def engine_b_part(prop, tier):
@@ -79,8 +79,8 @@ def serde_tv(cov, inc, assume):
     """Translation validation of the serde data-model driver against real serde_json (native)."""
     import re
     tdir = os.path.join(runner.WORK, "target-native")
-    cmd = ["cargo", "build", "--offline", "--release", "--features", "native-tv", "--bin", "tvserde", "--target-dir", tdir]
-    rc, out, _ = runner.sh(cmd, cwd=runner.HARN, timeout=1200, limits=False)
+    cmd = ["cargo", "build", "--offline", "--release", "--target-dir", tdir]
+    rc, out, _ = runner.sh(cmd, cwd=os.path.join(runner.ROOT, "tvserde"), timeout=1200, limits=False)
     exe = os.path.join(tdir, "release", "tvserde")
     if rc != 0 or not os.path.exists(exe):
         return cov, inc + ["serde driver validation binary failed to build"], assume
